@@ -33,6 +33,19 @@ ASSUMPTIONS = [
     "a negative one) in first or last position of a generated formula: slices / views / printing of the "
     "training and derived objects are judged as for every other design (the evaluation model may "
     "decline these designs: counted as model_skip)",
+    "`__getitem__` with a name that is not a term name: besides one fixed unknown name, every training "
+    "matrix and / or matrices derived from it (a drawn non-empty subset of the chain, in a drawn order) "
+    "is indexed with about 3 near-miss names per term, generated from the object's real term names "
+    "(a blank added anywhere / next to a separator / around ':' and '|', one or all blanks removed, "
+    "tab / newline / no-break space / double blank, different case of the whole name or one character, "
+    "leading / trailing characters, a character lost, the lme4 spelling in parentheses, quotes, "
+    "reversed components, '*' '&' '||' '/' for ':' '|', the name inside a sum / call / subscript; 15% "
+    "get two such edits; names equal to a real term name of the object are left out; random stream "
+    "(seed, 'c17', path, 'near-miss', kind)): each must be refused with ValueError (Spec.C17.getItem: "
+    "no slice of that name), judged on the Python side like the fixed unknown name.  After the "
+    "look-ups every object of the chain (all made before them) and one object derived after them are "
+    "observed again and judged by Spec.C17.holds (views tagged 'after the near-miss look-ups').  "
+    "Only strings are used as names",
 ]
 TRUSTED = ["numpy column_stack / slicing, pandas DataFrame construction (modelled by hstack/slices)"]
 
@@ -56,6 +69,106 @@ def view(obj, n_expected, widened=False):
             "slices": [[k, int(s.start), int(s.stop)] for k, s in obj.slices.items()],
             "terms": [t.name for t in terms], "labels": designs._labels(terms),
             "check_labels": not widened, "expected_rows": int(n_expected)}
+
+
+def _mutate_name(r, name):
+    """one spelling that a reader would take for `name` but that is a different string"""
+    k = r.randrange(16)
+    blanks = [i for i, c in enumerate(name) if c == " "]
+    seps = [i for i, c in enumerate(name) if c in ":|,()[]*+="]
+    if k == 0:                                  # a blank anywhere (incl. before / after)
+        i = r.randrange(len(name) + 1)
+        return name[:i] + " " + name[i:]
+    if k == 1:                                  # a blank next to a separator (":", "|", ",", "(", ...)
+        if seps:
+            i = r.choice(seps) + r.randrange(2)
+            return name[:i] + " " + name[i:]
+        return name + " "
+    if k == 2:                                  # blanks on both sides of every ":" / "|"
+        return re.sub(r"\s*([:|])\s*", r" \1 ", name)
+    if k == 3:                                  # one blank missing
+        if blanks:
+            i = r.choice(blanks)
+            return name[:i] + name[i + 1:]
+        return " " + name
+    if k == 4:                                  # all blanks missing
+        return name.replace(" ", "") if blanks else name + "  "
+    if k == 5:                                  # another kind / amount of white space
+        if blanks:
+            i = r.choice(blanks)
+            return name[:i] + r.choice(["  ", "\t", "\n", "\u00a0"]) + name[i + 1:]
+        return name + r.choice(["\t", "\n", "\u00a0"])
+    if k == 6:                                  # different case
+        return r.choice([name.upper(), name.lower(), name.swapcase(), name.capitalize(), name.title()])
+    if k == 7:                                  # case of one character
+        i = r.randrange(len(name))
+        return name[:i] + name[i].swapcase() + name[i + 1:]
+    if k == 8:                                  # trailing / leading characters
+        extra = r.choice(["_", "'", ".", "0", "1", "x", ":", "|", "[", "]", "()", "[0]", ",", "~", "+"])
+        return name + extra if r.random() < 0.6 else extra + name
+    if k == 9:                                  # a character lost at either end / inside
+        if len(name) < 2:
+            return name + name
+        i = r.choice([0, len(name) - 1, r.randrange(len(name))])
+        return name[:i] + name[i + 1:]
+    if k == 10:                                 # the lme4 spelling of a group term / parenthesised term
+        inner = r.choice([name, re.sub(r"\s*\|\s*", " | ", name)])
+        return "(" + inner + ")"
+    if k == 11:                                 # quoted / back-quoted
+        q = r.choice(["`", "'", '"'])
+        return q + name + q
+    if k == 12:                                 # the components of an interaction / group term reversed
+        for sep in (":", "|"):
+            if sep in name:
+                parts = name.split(sep)
+                return sep.join(reversed(parts))
+        return name + ":" + name
+    if k == 13:                                 # "*" / "&" for ":" and "||" / "/" for "|"
+        if ":" in name:
+            return name.replace(":", r.choice(["*", " * ", "&", "::", "."]))
+        if "|" in name:
+            return name.replace("|", r.choice(["||", "/", " || ", ":"]))
+        return name + "[" + name + "]"
+    if k == 14:                                 # the name twice / with the response / intercept around it
+        return r.choice([name + " + " + name, "1 + " + name, "y ~ " + name, "0 + " + name, name + " - 1"])
+    return r.choice([name + "[0]", name + "[" + name + "]", "C(" + name + ")", "I(" + name + ")",
+                     name.replace("(", "[").replace(")", "]") if "(" in name else name + "()"])
+
+
+def near_miss_names(r, names, per_term=3):
+    """names that are NOT term names of this object but close to one (white space added / missing,
+    case, leading / trailing characters, lme4 spelling, reversed components, ...), generated from the
+    object's real term names; every name that happens to equal a real term name is left out"""
+    real = set(names)
+    out = []
+    for name in names:
+        for _ in range(per_term):
+            cand = _mutate_name(r, name)
+            if r.random() < 0.15:
+                cand = _mutate_name(r, cand)                 # two edits
+            if cand not in real and cand not in out:
+                out.append(cand)
+    if not names:
+        out = ["Intercept", " ", ""]
+    return out
+
+
+def near_miss_checks(obj, r):
+    """lookups with near-miss names: each must be refused with ValueError (Spec.C17.getItem: a name
+    that is not the name of a slice has no sub-matrix).  Returns (complaints, names tried)."""
+    bad = []
+    names = [t.name for t in obj.terms.values()]
+    tried = near_miss_names(r, names)
+    for nm in tried:
+        try:
+            sub = obj[nm]
+            bad.append(f"obj[{nm!r}] accepted (shape {np.asarray(sub).shape}) although the term names "
+                       f"are {names}")
+        except ValueError:
+            pass
+        except Exception as e:  # noqa
+            bad.append(f"obj[{nm!r}] raised {type(e).__name__} instead of ValueError")
+    return bad, tried
 
 
 def api_checks(obj, kind):
@@ -292,7 +405,10 @@ def explore(tier, seed, res=None, replay=None):
                 "unseen group under the 'silent' policy), plus designs over categorical predictors / "
                 "grouping factors with float levels that differ only beyond the 6th significant "
                 "digit, designs on frames with missing values in used columns under relabelled "
-                "(non-unique) indexes, designs with an offset term; non-trivial = a design with >= 2 terms in "
+                "(non-unique) indexes, designs with an offset term; every chain is also indexed with "
+                "near-miss names derived from its real term names (spacing, case, extra / lost "
+                "characters, lme4 spelling, ...: all must be refused) and its objects, plus one derived "
+                "afterwards, are judged again by Spec.C17.holds; non-trivial = a design with >= 2 terms in "
                 "some matrix; distinct by formula text")
     rng = rng_for(seed, "c17")
     n_cases = 300 if tier == "quick" else 10000
@@ -346,7 +462,7 @@ def explore(tier, seed, res=None, replay=None):
             res.count("impl_error:" + obs["err"])
             continue
         dm = obs["_dm"]
-        rec = {"case": case, "bad": [], "views": []}
+        rec = {"case": case, "bad": [], "views": [], "after": [], "lookups": []}
         # retained observations = complete rows of the caller's frame in the columns the formula
         # names (counted here; the design's own idea of its data is not consulted)
         n = int(keep.sum())
@@ -376,6 +492,32 @@ def explore(tier, seed, res=None, replay=None):
                     widened = np.asarray(o.design_matrix).shape[-1] != base_width
                     rec["views"].append(view(o, rows, widened))
                     rec["bad"] += api_checks(o, kind)
+                # look-ups with near-miss names (own random stream: the streams of the frames above are
+                # left as they were), on the training object and / or objects derived from it, in a
+                # drawn order; every object of the chain -- made before the look-ups -- is then
+                # observed again, and one more object is derived after them
+                rn = rng_for(seed, "c17", path, "near-miss", kind)
+                targets = [o for o, _ in chain if rn.random() < 0.6] or [rn.choice(chain)[0]]
+                rn.shuffle(targets)
+                for o in targets:
+                    complaints, tried = near_miss_checks(o, rn)
+                    rec["bad"] += complaints
+                    rec["lookups"] += [f"{kind}[{nm!r}]" for nm in tried]
+                    res.count("near_miss_lookups", len(tried))
+                after = list(chain)
+                if news and len(chain) > 1:
+                    try:
+                        with warnings.catch_warnings():
+                            warnings.simplefilter("ignore")
+                            k = rn.randrange(len(chain) - 1)
+                            after.append((chain[k][0].evaluate_new_data(news[k]), len(news[k])))
+                    except Exception as e:  # noqa
+                        res.count(f"new_data_error_after_lookups:{type(e).__name__}")
+                for o, rows in after:
+                    widened = np.asarray(o.design_matrix).shape[-1] != base_width
+                    v = view(o, rows, widened)
+                    v["stage"] = "after the near-miss look-ups"
+                    rec["after"].append(v)
             rec["bad"] += response_checks(dm)
             try:
                 a, b, c = dm
@@ -405,7 +547,7 @@ def explore(tier, seed, res=None, replay=None):
         if len(res.samples) < 5:
             res.samples.append({"formula": formula, "views": rec["views"][:2]})
 
-    spec = ask([{"op": "c17_spec", "views": rec["views"]} for rec in records])
+    spec = ask([{"op": "c17_spec", "views": rec["views"] + rec["after"]} for rec in records])
     for rec, sp in zip(records, spec):
         names = [t for v in rec["views"] for t in v["terms"]]
         dup_terms = None
@@ -417,15 +559,22 @@ def explore(tier, seed, res=None, replay=None):
             pass
         rec["dup_terms"] = dup_terms
         problems = list(rec["bad"])
-        for v, ok in zip(rec["views"], sp["holds"]):
+        impl_bad = []
+        for v, ok in zip(rec["views"] + rec["after"], sp["holds"]):
             if not ok:
-                problems.append(f"Spec.C17.holds false for object with terms {v['terms']}")
+                problems.append(f"Spec.C17.holds false for object with terms {v['terms']}"
+                                + (f" {v['stage']}: slices {v['slices']}" if "stage" in v else ""))
+                impl_bad.append(v)
         if problems:
             fid = None
             if dup_terms and "KF-C17-D16" in open_ids:
                 fid = "KF-C17-D16"
                 res.known_hit[fid] = res.known_hit.get(fid, 0) + 1
-            res.failures.append({"case": rec["case"], "impl": rec["views"][:3], "why": problems[:4],
+            case = dict(rec["case"])
+            if any("accepted" in p or "after the near-miss" in p or "instead of ValueError" in p
+                   for p in problems):
+                case["lookups"] = rec["lookups"]
+            res.failures.append({"case": case, "impl": (impl_bad + rec["views"])[:3], "why": problems[:4],
                                  "finding": fid, "expected": "consistent containers"})
         _ = names
     # model vs implementation on the training containers (exactly modelled atoms only)
